@@ -65,6 +65,13 @@ type faultyReflection struct {
 	rpb.ServerReflectionServer
 	mu        sync.Mutex
 	failAfter int // <0: never
+	active    int // reflection streams whose server handler has not returned yet
+}
+
+func (f *faultyReflection) activeStreams() int {
+	f.mu.Lock()
+	defer f.mu.Unlock()
+	return f.active
 }
 
 var errReflection = errors.New("sim: reflection stream broken on purpose")
@@ -87,6 +94,14 @@ func (s *countingStream) Send(m *rpb.ServerReflectionResponse) error {
 }
 
 func (f *faultyReflection) ServerReflectionInfo(stream rpb.ServerReflection_ServerReflectionInfoServer) error {
+	f.mu.Lock()
+	f.active++
+	f.mu.Unlock()
+	defer func() {
+		f.mu.Lock()
+		f.active--
+		f.mu.Unlock()
+	}()
 	return f.ServerReflectionServer.ServerReflectionInfo(&countingStream{ServerReflection_ServerReflectionInfoServer: stream, f: f})
 }
 
